@@ -2,7 +2,7 @@
 
 Exploration (DESIGN.md section 3, C15): a curve alphabet covering every degenerate class the property names
 (collinear / coincident control points, cusps, loops, zero length; circular and eccentric arcs of any extent) at
-magnitudes {1e-3, 1, 1e5}, error settings {1e-4, 1e-6} (thorough: + 1e-9), each under isometries, uniform scales and
+magnitudes {1e-3, 1, 1e5}, error settings {1e-4, 1e-6, 1e-8} (thorough: + 1e-9, 1e-10), each under isometries, uniform scales and
 reversal; paths of 2-4 segments with moves and zero-length closes; shapes; t on a 33-point grid plus every cumulative
 break point.  Oracle: true length by adaptive composite Gauss-Legendre quadrature (ref/bezier.py, self-checked to
 1e-13 relative).
@@ -114,7 +114,7 @@ class Segments(SubCheck):
 
     def __init__(self, svg, tier):
         self.svg = svg
-        errs = ERRORS + ([1e-9] if tier == "thorough" else [])
+        errs = ERRORS + ([1e-8, 1e-9, 1e-10] if tier == "thorough" else [1e-8])
         self.p = Product(sorted(CURVES), [1.0, 1e-3, 1e5], errs)
         self.bounds = dict(curves=len(CURVES), errors=errs, variants=VARIANTS)
 
